@@ -1,1 +1,454 @@
-fn main() {}
+//! C27 harness: a controlled scheduler around the REAL `Dfir::run()`.
+//!
+//! Thread 0 (runner) builds a real dataflow `source_stream(rx) -> for_each(..)` over a tokio
+//! unbounded channel and polls the real `df.run()` future by hand (flag-setting task waker);
+//! threads 1..nw (wakers) each push items into the channel from their own OS thread, which
+//! fires the dataflow's Waker (`WakeState::wake_by_ref`) on that thread. Hook H2
+//! (`dfir_rs::scheduled::context::verif_hooks`) blocks every thread at every named yield point
+//! until the controller (main thread) releases it, so exactly one thread runs at a time and
+//! the interleaving is the controller's schedule: a TLC-generated one (replay) or a seeded
+//! random one. One event is logged per executed segment, in the controller's order.
+//! Nothing is judged here: TLC validates the trace against spec/Wake.
+//!
+//!   wake replay <cases.ndjson> <trace_out.ndjson>
+//!       case: {"nw":2,"sends":1,"steps":[{"thr":0,"e":"run","to":"avail_begin","tw":false,..},..]}
+//!   wake random <count> <max_wakers> <max_sends> <trace_out.ndjson>
+//!
+//! stdout: one JSON summary. Exit code 3: the controller lost a thread (harness failure).
+use std::cell::Cell;
+use std::future::Future;
+use std::panic::{AssertUnwindSafe, catch_unwind, resume_unwind};
+use std::sync::atomic::{AtomicBool, Ordering};
+use std::sync::{Arc, Condvar, Mutex, RwLock};
+use std::task::{Context, Wake, Waker};
+use std::time::Duration;
+
+use dfir_rs::dfir_syntax;
+use dfir_rs::scheduled::context::verif_hooks;
+use hv_common::{Rng, Trace, Value, json};
+
+struct CtlState {
+    at: Vec<Option<&'static str>>,
+    arrivals: Vec<u64>,
+    go: Vec<bool>,
+    exited: Vec<bool>,
+    panicked: Vec<Option<String>>,
+    stop: bool,
+}
+struct Ctl {
+    m: Mutex<CtlState>,
+    cv: Condvar,
+}
+struct StopToken;
+
+thread_local! { static TID: Cell<Option<usize>> = const { Cell::new(None) }; }
+static CTL: RwLock<Option<Arc<Ctl>>> = RwLock::new(None);
+
+fn ctl() -> Option<Arc<Ctl>> {
+    CTL.read().unwrap().clone()
+}
+
+/// The yield point: announce arrival, block until released (or the case is being torn down).
+fn hook(point: &'static str) {
+    let Some(tid) = TID.with(|t| t.get()) else { return };
+    let Some(c) = ctl() else { return };
+    let mut s = c.m.lock().unwrap();
+    s.at[tid] = Some(point);
+    s.arrivals[tid] += 1;
+    c.cv.notify_all();
+    while !s.go[tid] && !s.stop {
+        s = c.cv.wait(s).unwrap();
+    }
+    let stopping = s.stop && !s.go[tid];
+    s.go[tid] = false;
+    s.at[tid] = None;
+    drop(s);
+    if stopping && tid == 0 && point != "rt_idle" {
+        // tear-down while the runner is inside a poll: unwind out of the dataflow
+        resume_unwind(Box::new(StopToken));
+    }
+}
+
+fn stopped() -> bool {
+    ctl().map(|c| c.m.lock().unwrap().stop).unwrap_or(true)
+}
+
+fn mark_exit(tid: usize, panic: Option<String>) {
+    if let Some(c) = ctl() {
+        let mut s = c.m.lock().unwrap();
+        s.exited[tid] = true;
+        s.at[tid] = None;
+        s.panicked[tid] = panic;
+        c.cv.notify_all();
+    }
+}
+
+struct FlagWaker(Arc<AtomicBool>);
+impl Wake for FlagWaker {
+    fn wake(self: Arc<Self>) {
+        self.0.store(true, Ordering::SeqCst);
+    }
+    fn wake_by_ref(self: &Arc<Self>) {
+        self.0.store(true, Ordering::SeqCst);
+    }
+}
+
+fn runner_thread(
+    rx: dfir_rs::tokio_stream::wrappers::UnboundedReceiverStream<i64>,
+    served: Arc<Mutex<Vec<i64>>>,
+    tw: Arc<AtomicBool>,
+) {
+    TID.with(|t| t.set(Some(0)));
+    let r = catch_unwind(AssertUnwindSafe(|| {
+        let served2 = served.clone();
+        let mut df = dfir_syntax! {
+            source_stream(rx) -> for_each(|x: i64| served2.lock().unwrap().push(x));
+        };
+        let waker = Waker::from(Arc::new(FlagWaker(tw.clone())));
+        let mut cx = Context::from_waker(&waker);
+        let mut fut = Box::pin(df.run());
+        loop {
+            hook("rt_idle");
+            if stopped() {
+                break;
+            }
+            tw.store(false, Ordering::SeqCst);
+            let _ = fut.as_mut().poll(&mut cx);
+        }
+    }));
+    let panic = match r {
+        Ok(()) => None,
+        Err(e) if e.is::<StopToken>() => None,
+        Err(e) => Some(
+            e.downcast_ref::<&str>()
+                .map(|s| s.to_string())
+                .or_else(|| e.downcast_ref::<String>().cloned())
+                .unwrap_or_else(|| "panic".into()),
+        ),
+    };
+    mark_exit(0, panic);
+}
+
+fn waker_thread(w: usize, sends: usize, tx: dfir_rs::tokio::sync::mpsc::UnboundedSender<i64>) {
+    TID.with(|t| t.set(Some(w)));
+    for k in 1..=sends {
+        hook("w_idle");
+        if stopped() {
+            break;
+        }
+        let _ = tx.send((w * 10 + k) as i64);
+    }
+    mark_exit(w, None);
+}
+
+struct Case {
+    c: Arc<Ctl>,
+    n: usize, // threads = 1 + nw
+    tw: Arc<AtomicBool>,
+    served: Arc<Mutex<Vec<i64>>>,
+    sent: Vec<usize>,
+    handles: Vec<std::thread::JoinHandle<()>>,
+}
+
+fn lost(what: &str) -> ! {
+    eprintln!("wake harness: controller lost a thread: {what}");
+    std::process::exit(3);
+}
+
+impl Case {
+    fn start(nw: usize, sends: usize) -> Case {
+        let n = nw + 1;
+        let c = Arc::new(Ctl {
+            m: Mutex::new(CtlState {
+                at: vec![None; n],
+                arrivals: vec![0; n],
+                go: vec![false; n],
+                exited: vec![false; n],
+                panicked: vec![None; n],
+                stop: false,
+            }),
+            cv: Condvar::new(),
+        });
+        *CTL.write().unwrap() = Some(c.clone());
+        let (tx, rx) = dfir_rs::util::unbounded_channel::<i64>();
+        let tw = Arc::new(AtomicBool::new(true));
+        let served = Arc::new(Mutex::new(Vec::new()));
+        let mut handles = Vec::new();
+        {
+            let (served, tw) = (served.clone(), tw.clone());
+            handles.push(std::thread::spawn(move || runner_thread(rx, served, tw)));
+        }
+        for w in 1..=nw {
+            let tx = tx.clone();
+            handles.push(std::thread::spawn(move || waker_thread(w, sends, tx)));
+        }
+        drop(tx);
+        // wait until every thread stands at its first yield point
+        let mut s = c.m.lock().unwrap();
+        while !(0..n).all(|t| s.at[t].is_some() || s.exited[t]) {
+            let (g, to) = c.cv.wait_timeout(s, Duration::from_secs(60)).unwrap();
+            s = g;
+            if to.timed_out() {
+                lost("start");
+            }
+        }
+        drop(s);
+        Case { c, n, tw, served, sent: vec![0; n], handles }
+    }
+
+    fn at(&self, t: usize) -> Option<&'static str> {
+        let s = self.c.m.lock().unwrap();
+        if s.exited[t] { None } else { s.at[t] }
+    }
+    fn tw(&self) -> bool {
+        self.tw.load(Ordering::SeqCst)
+    }
+    fn runner_due(&self) -> bool {
+        match self.at(0) {
+            Some("rt_idle") => self.tw(),
+            Some(_) => true,
+            None => false,
+        }
+    }
+
+    /// Release thread t and wait until it stands at its next yield point (or exited).
+    /// Returns (from, to) with to = "exit" for a finished thread.
+    fn step(&mut self, t: usize) -> (&'static str, &'static str) {
+        let mut s = self.c.m.lock().unwrap();
+        let from = s.at[t].expect("stepping a thread that is not at a yield point");
+        let n0 = s.arrivals[t];
+        s.go[t] = true;
+        self.c.cv.notify_all();
+        while !(s.arrivals[t] > n0 && s.at[t].is_some()) && !s.exited[t] {
+            let (g, to) = self.c.cv.wait_timeout(s, Duration::from_secs(60)).unwrap();
+            s = g;
+            if to.timed_out() {
+                lost("step");
+            }
+        }
+        let to = if s.exited[t] { "exit" } else { s.at[t].unwrap() };
+        (from, to)
+    }
+
+    /// Steps thread t and builds the trace event.
+    fn step_event(&mut self, t: usize) -> Value {
+        let (from, to) = self.step(t);
+        let tw = self.tw();
+        if t == 0 {
+            let items: Vec<i64> = std::mem::take(&mut *self.served.lock().unwrap());
+            let panic = self.c.m.lock().unwrap().panicked[0].clone();
+            if let Some(msg) = panic {
+                return json!({"e":"panic","msg":msg});
+            }
+            if from == "tick_swapped" || !items.is_empty() {
+                json!({"e":"tick","thr":0,"items":items,"to":to,"tw":tw})
+            } else {
+                json!({"e":"run","thr":0,"to":to,"tw":tw})
+            }
+        } else if from == "w_idle" {
+            self.sent[t] += 1;
+            let item = (t * 10 + self.sent[t]) as i64;
+            json!({"e":"arrive","thr":t,"w":t,"item":item,"fired":to == "wake_begin","to":to,"tw":tw})
+        } else {
+            let to2 = if from == "wake_done" { "done" } else { to };
+            json!({"e":"wseg","thr":t,"w":t,"to":to2,"tw":tw})
+        }
+    }
+
+    fn finish(self) {
+        {
+            let mut s = self.c.m.lock().unwrap();
+            s.stop = true;
+            self.c.cv.notify_all();
+        }
+        for h in self.handles {
+            let _ = h.join();
+        }
+        *CTL.write().unwrap() = None;
+    }
+}
+
+fn same(model: &Value, ev: &Value) -> bool {
+    let set = |v: &Value| {
+        let mut a: Vec<i64> = serde_json::from_value(v.clone()).unwrap_or_default();
+        a.sort();
+        a
+    };
+    if model["e"] != ev["e"] || model["thr"] != ev["thr"] || model["tw"] != ev["tw"] {
+        return false;
+    }
+    match ev["e"].as_str().unwrap_or("") {
+        "tick" => set(&model["items"]) == set(&ev["items"]) && model["to"] == ev["to"],
+        "arrive" => model["item"] == ev["item"] && model["fired"] == ev["fired"],
+        _ => model["to"] == ev["to"],
+    }
+}
+
+struct Out {
+    steps: usize,
+    ticks: usize,
+    drift: Option<Value>,
+}
+
+fn run_case(
+    case_id: usize,
+    nw: usize,
+    sends: usize,
+    sched: &mut dyn FnMut(&Case) -> Option<usize>,
+    expect: Option<&Vec<Value>>,
+    terminal: bool,
+    tr: &mut Trace,
+) -> Out {
+    tr.ev(json!({"e":"reset","case":case_id,"nw":nw,"sends":sends}));
+    let mut case = Case::start(nw, sends);
+    let budget = 60 * (1 + nw * sends) + expect.map(|e| e.len()).unwrap_or(0);
+    let (mut steps, mut ticks) = (0usize, 0usize);
+    let mut drift: Option<Value> = None;
+    let mut dead = false;
+    let mut exec = |case: &mut Case, t: usize, tr: &mut Trace, steps: &mut usize, ticks: &mut usize| -> bool {
+        let ev = case.step_event(t);
+        if ev["e"] == "panic" {
+            tr.ev(ev);
+            return false;
+        }
+        if ev["e"] == "tick" {
+            *ticks += 1;
+        }
+        if let Some(exp) = expect {
+            if drift.is_none() {
+                match exp.get(*steps) {
+                    Some(m) if same(m, &ev) => {}
+                    Some(m) => drift = Some(json!({"case":case_id,"step":*steps,"model":m,"impl":ev})),
+                    // a schedule that ends in a non-terminal model state is a prefix: the run
+                    // to quiescence after it is not predicted
+                    None if terminal => {
+                        drift = Some(json!({"case":case_id,"step":*steps,"model":"terminal","impl":ev}))
+                    }
+                    None => {}
+                }
+            }
+        }
+        tr.ev(ev);
+        *steps += 1;
+        true
+    };
+    // scheduled part
+    while !dead && steps < budget {
+        match sched(&case) {
+            Some(t) => {
+                if t >= case.n || case.at(t).is_none() {
+                    continue; // thread already finished: entry skipped
+                }
+                dead = !exec(&mut case, t, tr, &mut steps, &mut ticks);
+            }
+            None => break,
+        }
+    }
+    // run to quiescence: only due steps, wakers first (round robin), then the runner
+    let mut next = 1usize;
+    while !dead {
+        let pick = (0..case.n)
+            .map(|k| (next + k) % case.n)
+            .find(|&t| if t == 0 { case.runner_due() } else { case.at(t).is_some() });
+        match pick {
+            Some(t) => {
+                if steps >= budget {
+                    tr.ev(json!({"e":"stall"}));
+                    break;
+                }
+                dead = !exec(&mut case, t, tr, &mut steps, &mut ticks);
+                next = t + 1;
+            }
+            None => break,
+        }
+    }
+    case.finish();
+    Out { steps, ticks, drift }
+}
+
+fn main() {
+    let args: Vec<String> = std::env::args().collect();
+    verif_hooks::set(Some(Arc::new(hook)));
+    let mut drift: Vec<Value> = Vec::new();
+    let (mut cases, mut steps, mut ticks, mut ndrift) = (0usize, 0usize, 0usize, 0usize);
+    match args.get(1).map(|s| s.as_str()) {
+        Some("replay") => {
+            let input = hv_common::read_ndjson(&args[2]);
+            let mut tr = Trace::create(&args[3]);
+            for (i, c) in input.iter().enumerate() {
+                let nw = c["nw"].as_u64().unwrap() as usize;
+                let sends = c["sends"].as_u64().unwrap() as usize;
+                let exp: Vec<Value> = c["steps"].as_array().cloned().unwrap_or_default();
+                let order: Vec<usize> = exp.iter().map(|s| s["thr"].as_u64().unwrap() as usize).collect();
+                let mut k = 0usize;
+                let mut sched = |_c: &Case| {
+                    let r = order.get(k).copied();
+                    k += 1;
+                    r
+                };
+                let terminal = c["terminal"].as_bool().unwrap_or(false);
+                let o = run_case(i + 1, nw, sends, &mut sched, Some(&exp), terminal, &mut tr);
+                cases += 1;
+                steps += o.steps;
+                ticks += o.ticks;
+                if let Some(d) = o.drift {
+                    ndrift += 1;
+                    if drift.len() < 20 {
+                        drift.push(d);
+                    }
+                }
+            }
+            tr.ev(json!({"e":"eof"}));
+            let events = tr.lines;
+            tr.finish();
+            println!("{}", json!({"cases":cases,"events":events,"steps":steps,"ticks":ticks,"ndrift":ndrift,"drift":drift}));
+        }
+        Some("random") => {
+            let count: usize = args[2].parse().unwrap();
+            let max_w: u64 = args[3].parse().unwrap();
+            let max_s: u64 = args[4].parse().unwrap();
+            let mut tr = Trace::create(&args[5]);
+            let mut rng = Rng::new(hv_common::seed());
+            for i in 0..count {
+                let nw = 1 + rng.below(max_w) as usize;
+                let sends = 1 + rng.below(max_s) as usize;
+                let spur_pct = if i % 2 == 0 { 0 } else { 5 + rng.below(20) };
+                // bias: how eagerly the runner is scheduled relative to the wakers
+                let runner_pct = 20 + rng.below(70);
+                let mut left = 40 * (1 + nw * sends);
+                let mut r2 = Rng::new(rng.next());
+                let mut sched = |c: &Case| {
+                    if left == 0 {
+                        return None;
+                    }
+                    left -= 1;
+                    let wk: Vec<usize> = (1..c.n).filter(|&t| c.at(t).is_some()).collect();
+                    let due = c.runner_due();
+                    let parked = !due && c.at(0) == Some("rt_idle");
+                    if parked && r2.below(100) < spur_pct {
+                        return Some(0);
+                    }
+                    if due && (wk.is_empty() || r2.below(100) < runner_pct) {
+                        return Some(0);
+                    }
+                    if wk.is_empty() {
+                        return None;
+                    }
+                    Some(wk[r2.below(wk.len() as u64) as usize])
+                };
+                let o = run_case(i + 1, nw, sends, &mut sched, None, false, &mut tr);
+                cases += 1;
+                steps += o.steps;
+                ticks += o.ticks;
+            }
+            tr.ev(json!({"e":"eof"}));
+            let events = tr.lines;
+            tr.finish();
+            println!("{}", json!({"cases":cases,"events":events,"steps":steps,"ticks":ticks,"ndrift":0,"drift":drift}));
+        }
+        _ => {
+            eprintln!("usage: wake replay|random ...");
+            std::process::exit(2);
+        }
+    }
+}
